@@ -50,6 +50,9 @@ def gen_case_cfg(g):
             cfg["opts"]["n_final_samples"] = int(g.choice([max(2, cfg["n"] // 2), 2 * cfg["n"] + 1]))
     else:
         cfg["opts"] = {}
+    if g.random() < 0.3 and sampler != "blackjax_smc" and coords[0].kind == "box":
+        # likelihood exactly zero on part of the prior support (zero-weight particles)
+        cfg["cut_below"] = float(coords[0].mu - g.uniform(0.0, 1.5) * coords[0].s)
     cfg["recipe"] = bool(g.random() < 0.5) and sampler != "blackjax_smc"
     cfg["resume"] = bool(sampler == "smc" and g.random() < 0.5)
     return cfg
@@ -60,7 +63,7 @@ def execute(cfg):
     import jax  # noqa: F401  (x64 flag set by env)
 
     t = Target.from_desc(cfg["target"])
-    probe = Probe(t, recipe=cfg.get("recipe", False))
+    probe = Probe(t, recipe=cfg.get("recipe", False), cut_below=cfg.get("cut_below"))
     t, a, probe = recorded.build(cfg, probe=probe)
     a.flow.record_emitted = True
     sampler = cfg["sampler"]
@@ -77,7 +80,7 @@ def execute(cfg):
         out["like_rows"] = probe.like_rows
         if cfg.get("resume") and len(r.payloads) >= 2:
             pay = r.payloads[len(r.payloads) // 2 - 1]
-            probe2 = Probe(t, recipe=cfg.get("recipe", False))
+            probe2 = Probe(t, recipe=cfg.get("recipe", False), cut_below=cfg.get("cut_below"))
             t2, a2, probe2 = recorded.build(cfg, probe=probe2)
             r2 = recorded.record(cfg, aspire=a2, probe=probe2, rng=np.random.default_rng(999), resume_from=pay["bytes"])
             if r2.exc is not None:
